@@ -52,6 +52,11 @@ def ensure_project():
 
 def make(targets, timeout=1500, jobs=8):
     """Full .vo build of the given targets (and what they depend on). Returns (ok, log)."""
+    if os.path.exists(os.path.join(COQ, 'Makefile')) and os.path.exists(os.path.join(COQ, '.Makefile.d')):
+        # nothing to do?  (read-only question, asked without the lock so concurrent checks do not queue behind a build)
+        q = subprocess.run(['make', '-q'] + list(targets), cwd=COQ, stdout=subprocess.DEVNULL, stderr=subprocess.DEVNULL)
+        if q.returncode == 0:
+            return True, 'up to date'
     with lock():
         ensure_project()
         p = subprocess.run(['timeout', str(timeout), 'make', '-j%d' % jobs] + list(targets), cwd=COQ,
@@ -72,9 +77,16 @@ def compile_props(prop_id, timeout=600):
     res = dict(ok=ok, theorems=theorems, assumptions={}, log=log, cmd=cmd, discharged=0)
     if not ok:
         return res
-    with lock():
-        p = subprocess.run(['timeout', str(timeout), 'coqc', '-Q', '.', 'VF', '-w', '-all', f'Props/{prop_id}.v'],
-                           cwd=COQ, stdout=subprocess.PIPE, stderr=subprocess.STDOUT, text=True)
+    outdir = os.path.join(env.BUILD, 'props', str(os.getpid()))
+    os.makedirs(outdir, exist_ok=True)
+    # compiled again (output outside the project, no lock needed) to capture what Print Assumptions reports
+    p = subprocess.run(['timeout', str(timeout), 'coqc', '-Q', '.', 'VF', '-w', '-all', '-o', os.path.join(outdir, f'{prop_id}.vo'),
+                        f'Props/{prop_id}.v'], cwd=COQ, stdout=subprocess.PIPE, stderr=subprocess.STDOUT, text=True)
+    for ext in ('.vo', '.vok', '.vos', '.glob'):
+        try:
+            os.remove(os.path.join(outdir, f'{prop_id}{ext}'))
+        except OSError:
+            pass
     res['log'] = log + p.stdout
     if p.returncode != 0:
         res['ok'] = False
